@@ -326,6 +326,55 @@ class Gen:
             pr["procs"].append(self.proc(pr["name"]))
         return pr
 
+    # ---- round 6: added after `build` from a random stream of their own
+    def add_call_tree(self, rng):
+        """a driver that calls two to four stages, each of which calls a helper: the call graph of the driver has
+        a second hop with several nodes that all have outgoing edges (whose colours are handed out per hop)"""
+        mods = [u for f in self.files if not f.get("alias_of") for u in f["units"] if u["kind"] == "module"]
+        if not mods:
+            return 0
+        u = rng.choice(mods)
+
+        def mk(name, calls):
+            return {"kind": "subroutine", "name": name, "args": [], "locals": [], "uses": [], "renames": [],
+                    "calls": calls, "links": [], "internal": None}
+
+        k = rng.choice([2, 3, 3, 4])
+        leaves = [self.fresh("leaf") for _ in range(k)]
+        stages = [self.fresh(rng.choice(["stage", "Step", "phase"])) for _ in range(k)]
+        new = [mk(l, []) for l in leaves]
+        for i, st in enumerate(stages):
+            new.append(mk(st, [leaves[i]] + ([rng.choice(leaves)] if rng.random() < 0.3 else [])))
+        new.append(mk(self.fresh("drive"), rng.sample(stages, k)))
+        u["procs"] += new
+        for p in new:
+            self.procs.append((u["name"], p["name"]))
+        return k
+
+    def add_aliases(self, rng):
+        """source files that are reachable under a second path: a symbolic link (in the same or another directory,
+        with the same or another base name / extension) to a source file of the project.  FORD documents such a
+        file once per path; the alias is a file of the project like any other (same program units)."""
+        exts = ["pp.f90", "F90", "f90", "q.f90"] if self.preproc else ["f90", "F90", "f95", "f03"]
+        dirs = ["", "sub/", "compat/", "other/"]
+        taken = {f["path"] for f in self.files}
+        made = []
+        for k in range(rng.choice([1, 1, 1, 2])):
+            tgt = rng.choice([f for f in self.files if not f.get("alias_of")])
+            base = os.path.basename(tgt["path"])
+            stem = base.split(".")[0]
+            nb = rng.choice([base, rng.choice(["a", "z"]) + f"lnk{k}_{stem}." + rng.choice(exts)])
+            path = rng.choice(dirs) + nb
+            if path in taken:
+                continue
+            taken.add(path)
+            self.files.append({"path": path, "units": tgt["units"], "top": tgt["top"], "alias_of": tgt["path"]})
+            made.append(path)
+        return made
+
+    def links(self):
+        return {f["path"]: f["alias_of"] for f in self.files if f.get("alias_of")}
+
     # ---- rendering
     def render_proc(self, p, ind="  "):
         L = []
@@ -723,7 +772,7 @@ import json as _json, os as _os, atexit as _atexit
 import ford.fortran_project as _fp
 import ford.sourceform as _sf
 _TR = {"order": [], "requests": [], "lists": {}, "forced": %(forced)r, "readers": [], "types": [],
-       "enumerated": None, "exts": None, "opened": [], "pagedirs": [], "listings": 0}
+       "enumerated": None, "exts": None, "opened": [], "pagedirs": [], "listings": 0, "sorted_lists": [], "hops": []}
 _SRC = %(srcroot)r
 _ROOT = _os.path.dirname(_SRC)
 # --- the order in which the file system enumerates a directory: every os.listdir / os.scandir below the project
@@ -830,11 +879,11 @@ def _faf(settings):
     forced = _TR["forced"]
     if forced is not None:
         byrel = {_rel(p): p for p in got}
-        missing = [r for r in forced if r not in byrel]
-        if missing:
-            raise SystemExit("shim: source files of the project were not enumerated: %%r" %% (missing,))
+        # (a source file of the project that find_all_files did not return is left out here too - the run goes on
+        # and is compared with the others; the harness reports the parse order that does not match the forced one)
+        _TR["forced_missing"] = [r for r in forced if r not in byrel]
         # files the project does not have (e.g. read from a stale output directory) come after the forced ones
-        got = [byrel[r] for r in forced] + [byrel[r] for r in sorted(set(byrel) - set(forced))]
+        got = [byrel[r] for r in forced if r in byrel] + [byrel[r] for r in sorted(set(byrel) - set(forced))]
         return got
     return _Recorder(got)
 class _Recorder(list):
@@ -937,6 +986,58 @@ if %(workaround)r:
             r[0].project_file = getattr(pf, "name", str(pf))
         return r
     _ford.parse_arguments = _pa
+# `sort:` other than src - every entity list sort_components reorders: the list before (source order, with what the
+# sort keys read of every entity) and the positions after
+_SORTED_LISTS = %(sorted_lists)r
+_orig_sc = _sf.FortranBase.sort_components
+def _vs(v):
+    return [str(getattr(v, "vartype", "") or ""), str(getattr(v, "kind", "") or ""), str(getattr(v, "strlen", "") or ""),
+            str((getattr(v, "proto", None) or [""])[0] or "")]
+def _cf(it):
+    f = [str(it.name), str(it.obj), str(getattr(it, "permission", "default"))]
+    f += _vs(it) if it.obj == "variable" else ["", "", "", ""]
+    f.append(str(getattr(it, "proctype", "") or ""))
+    rv = getattr(it, "retvar", None)
+    f += (["1"] + _vs(rv)) if (rv is not None and not isinstance(rv, str)) else ["0", "", "", "", ""]
+    return f
+def _sc(self):
+    mode = str(getattr(self.settings, "sort", "src"))
+    if mode.lower() == "src" or len(_TR["sorted_lists"]) >= 500:
+        return _orig_sc(self)
+    before = {}
+    for a in _SORTED_LISTS:
+        l = getattr(self, a, None)
+        if isinstance(l, list) and len(l) >= 2:
+            before[a] = list(l)
+    r = _orig_sc(self)
+    for a, lst in before.items():
+        try:
+            after = [next(i for i, y in enumerate(lst) if y is x) for x in getattr(self, a)]
+            _TR["sorted_lists"].append({"mode": mode, "list": a, "owner": _qual(self), "items": [_cf(x) for x in lst], "after": after})
+        except Exception as e:
+            _TR["sorted_lists"].append({"mode": mode, "list": a, "owner": _qual(self), "error": repr(e)})
+    return r
+_sf.FortranBase.sort_components = _sc
+# coloured_edges - every hop of every graph: the nodes in the order the collection hands them out, and the colour
+# add_node is given for each of them
+import ford.graphs as _gr
+_orig_an = _gr.FortranGraph.add_nodes
+def _an(self, nodes, nesting=1):
+    self.__dict__.pop("add_node", None)       # (the recorder of the hop above: its nodes have all been handled)
+    if not getattr(self.data, "coloured_edges", False) or len(_TR["hops"]) >= 400 or len(nodes) < 2:
+        return _orig_an(self, nodes, nesting)
+    calls = []
+    _TR["hops"].append({"graph": type(self).__name__, "nesting": nesting, "order": [str(n.ident) for n in nodes], "calls": calls})
+    real_add = type(self).add_node.__get__(self)
+    def _rec(hop_nodes, hop_edges, node, colour):
+        calls.append([str(node.ident), str(colour)])
+        return real_add(hop_nodes, hop_edges, node, colour)
+    self.add_node = _rec
+    try:
+        return _orig_an(self, nodes, nesting)
+    finally:
+        self.__dict__.pop("add_node", None)
+_gr.FortranGraph.add_nodes = _an
 def _dump():
     with open(%(tracefile)r, "w") as fh:
         _json.dump(_TR, fh)
@@ -1006,6 +1107,7 @@ def run_ford(pf, hashseed=None, extra_args=(), shim=None):
 
 
 RUN_TIMEOUT_S = 100
+SORTED_LISTS: list = []        # the entity lists sort_components sorts (generated table; set by run())
 
 
 def one_run(job):
@@ -1020,6 +1122,13 @@ def one_run(job):
     out_rel = run.get("cli_output_dir") or options.get("output_dir") or "./doc"
     pf = e2e.write_project(d, files, options, pages=pages or None)
     doc = d / out_rel
+    for alias, tgt in (run.get("links") or {}).items():
+        # a source file reachable under a second path: the alias is a symbolic link to the file
+        q = d / "src" / alias
+        q.parent.mkdir(parents=True, exist_ok=True)
+        if q.exists() or q.is_symlink():
+            q.unlink()
+        os.symlink(os.path.relpath(d / "src" / tgt, q.parent), q)
     extra = ["-o", run["cli_output_dir"]] if run.get("cli_output_dir") else []
     rng = random.Random(run.get("junk_seed", 0))
     t0 = time.time()
@@ -1035,7 +1144,7 @@ def one_run(job):
     tracefile = d / "trace.json"
     shim = SHIM % {"forced": run["order"], "srcroot": str(d / "src"), "tracefile": str(tracefile),
                    "workaround": bool(run.get("workaround")), "fsorder": run.get("fsorder"),
-                   "clock": int(run.get("clock") or 0)}
+                   "clock": int(run.get("clock") or 0), "sorted_lists": list(SORTED_LISTS)}
     fs_before = sorted(os.path.relpath(os.path.join(w, f), d) for w, _ds, fs_ in os.walk(d) for f in fs_)
     rc, log = run_ford(pf, hashseed=run["hashseed"], extra_args=extra, shim=shim)
     res = {"id": rid, "rc": rc, "log": (log_pre + log)[-1500:], "wall": time.time() - t0, "fs_before": fs_before,
@@ -1328,6 +1437,195 @@ def micro_filekind(T, drv, rng, n, rep, hist):
     return len(reqs), bad
 
 
+def micro_colours(T, drv, rng, n, rep, hist):
+    """The colours of the edges of one graph hop (`coloured_edges`): the real `FortranGraph.add_nodes` on real
+    `BaseNode` objects, the same nodes handed over in several orders (lists in explicit orders, and a real set).
+    Oracle (property: the iteration order of a set is arbitrary): every order must give every node the same colour.
+    Correspondence: (identifier, colour number) in emission order vs Lean `hopColoursTree` on the same order."""
+    pool = ["assemble", "solve", "Solve", "report", "proc~helper", "proc~helper~2", "a_b", "a", "B", "fill", "pivot",
+            "module~m1", "x.f90", "zeta", "Zeta", "m~2", "0start"]
+    reqs, exp, ctx = [], [], []
+    bad = n_fail = 0
+    for _case in range(n):
+        k = rng.choice([1, 2, 2, 3, 3, 4, 5, 6])
+        names = rng.sample(pool, k)
+        pal = T.palette(k)
+        orders = [list(p_) for p_ in itertools.permutations(names)] if k <= 3 else \
+            [rng.sample(names, k) for _ in range(4)] + [sorted(names), sorted(names, reverse=True)]
+        hk = f"hop colours: {min(k, 4)}{'+' if k >= 4 else ''} nodes"
+        hist[hk] = hist.get(hk, 0) + 1
+        ref = None
+        for oi, order in enumerate(orders + ["set"]):
+            as_set = order == "set"
+            got = T.observe_hop_colours(names if as_set else order, as_set=as_set)
+            if any(c not in pal for _, c in got):
+                rep.tie_broken(f"micro/colours: colours {got} are not colour numbers of {k}")
+                bad += 1
+                break
+            if not as_set:
+                reqs.append(["c12.colours"] + [x for nm in order for x in (nm, nm)])
+                exp.append(["ok"] + [x for i, c in got for x in (i, str(pal.index(c)))])
+                ctx.append(order)
+            if ref is None:
+                ref = (order, got)
+            elif got != ref[1] and n_fail < 3:
+                n_fail += 1
+                rep.failing_input(
+                    {"stream": "micro/colours", "what": "FortranGraph.add_nodes on one hop with coloured_edges",
+                     "nodes": names, "iteration_order_a": ref[0], "colours_a": ref[1],
+                     "iteration_order_b": order if not as_set else "a real set (this process's hash order)", "colours_b": got,
+                     "why": "the same nodes, handed to add_nodes in two iteration orders of the set they are kept in, get "
+                            "different edge colours: the colours drawn in a nested graph depend on the hash seed",
+                     "oracle": "the colour of the edges that leave a node must not depend on the iteration order of the "
+                               "node collection"}, None)
+    got = drv.batch(reqs)
+    for order, e, g in zip(ctx, exp, got):
+        if e != g:
+            bad += 1
+            if bad <= 3:
+                rep.tie_broken(f"correspondence micro/colours: nodes handed over as {order}: add_nodes gives {e[1:]}, the model {g[1:]}",
+                               {"stream": "micro/colours", "order": order, "impl": e, "model": g})
+    return len(reqs), bad
+
+
+def micro_aliases(T, drv, rng, n, rep, hist, scratch: Path):
+    """`find_all_files` on scratch source directories in which some files are reachable under several paths
+    (symbolic links next to the file, in other directories, with other extensions), every directory enumerated in
+    ascending and in descending name order.  Oracle (property: regardless of the enumeration order of the file
+    system): both orders give the same set of source files.  Correspondence: that set vs Lean
+    `findSourcesListedTree` on the listing (path, real path)."""
+    reqs, exp, ctx = [], [], []
+    bad = n_fail = 0
+    dirs = ["", "legacy/", "compat/", "compat/old/"]
+    for case in range(n):
+        root = scratch / f"alias{case}"
+        exts = rng.choice([["f90"], ["f90", "F90"], ["f90", "f"]])
+        files, links = [], {}
+        for k in range(rng.randint(1, 4)):
+            rel = rng.choice(dirs) + f"s{k}." + rng.choice(exts + ["txt"])
+            files.append(rel)
+        for k in range(rng.choice([0, 1, 1, 2, 3])):
+            tgt = rng.choice(files + list(links))
+            rel = rng.choice(dirs) + rng.choice(["a", "m", "z"]) + f"lnk{k}." + rng.choice(exts + ["txt"])
+            links[rel] = tgt
+        for rel in files:
+            q = root / "src" / rel
+            q.parent.mkdir(parents=True, exist_ok=True)
+            q.write_text(f"subroutine s_{len(rel)}()\nend subroutine\n")
+        for rel, tgt in links.items():
+            q = root / "src" / rel
+            q.parent.mkdir(parents=True, exist_ok=True)
+            os.symlink(os.path.relpath(root / "src" / tgt, q.parent), q)
+        real_of = {}
+        for rel in files + list(links):
+            real_of["src/" + rel] = os.path.relpath(os.path.realpath(root / "src" / rel), root)
+        res = {}
+        for order in ("ascending", "descending"):
+            res[order] = T.observe_find_all_files(root, order, exts)
+            listing = sorted(real_of, key=lambda q_: q_.split("/"), reverse=(order == "descending"))
+            reqs.append(["c12.findlisted", "1", "src", "0", str(len(exts)), *exts] + [x for q_ in listing for x in (q_, real_of[q_])])
+            exp.append(["ok"] + res[order])
+            ctx.append((files, links, order))
+        nal = len(real_of) - len(set(real_of.values()))
+        hk = "aliased sources: " + ("no file with two paths" if nal == 0 else "files reachable under several paths")
+        hist[hk] = hist.get(hk, 0) + 1
+        if res["ascending"] != res["descending"] and n_fail < 3:
+            n_fail += 1
+            rep.failing_input(
+                {"stream": "micro/aliases", "what": "find_all_files on a source directory with symbolic links",
+                 "files": files, "symbolic_links (link -> target, below src/)": links, "extensions": exts,
+                 "found_when_enumerated_ascending": res["ascending"], "found_when_enumerated_descending": res["descending"],
+                 "why": "the set of source files (so the set of pages written) depends on the order in which the "
+                        "file system enumerates the directory",
+                 "oracle": "the files FORD documents must not depend on the enumeration order of the file system"}, None)
+    got = drv.batch(reqs)
+    for (files, links, order), e, g in zip(ctx, exp, got):
+        if g[:1] != ["ok"] or sorted(g[1:]) != e[1:]:
+            bad += 1
+            if bad <= 3:
+                rep.tie_broken(f"correspondence micro/aliases ({order}): find_all_files gives {e[1:]}, the model {sorted(g[1:])}",
+                               {"stream": "micro/aliases", "files": files, "links": links, "impl": e, "model": g})
+    return len(reqs), bad
+
+
+def micro_sortcomp(ford, drv, rng, n, rep, hist, sort_modes):
+    """`FortranBase.sort_components` (the `sort` option) on stub instances of the real entity classes, every mode
+    of `SORT_KEY_FUNCTIONS` (spelled in mixed case too), lists with many ties (equal permissions / types / names)
+    vs Lean `sortComponents` on the same source-order list.  Oracle (output is a function of the input alone):
+    sorting the same source-order list twice gives the same list, and ties keep their source order."""
+    import ford.sourceform as S
+    from types import SimpleNamespace
+
+    perms = ["default", "public", "protected", "private"]
+    names = ["alpha", "Alpha", "beta", "b", "x", "X", "init", "zeta", "a_1", "a-1"]
+    reqs, exp, ctx = [], [], []
+    bad = 0
+
+    def var(nm):
+        v = object.__new__(S.FortranVariable)
+        v.name, v.obj = nm, "variable"
+        v.vartype = rng.choice(["integer", "real", "class", "type", "character"])
+        v.kind = rng.choice([None, None, "dp", "4", ""])
+        v.strlen = rng.choice([None, None, "10", "*"]) if v.vartype == "character" else None
+        v.proto = rng.choice([["point", ""], ["node_t", "()"]]) if v.vartype in ("class", "type") else None
+        if rng.random() < 0.8:
+            v.permission = rng.choice(perms[1:])
+        return v
+
+    def other(nm):
+        kind = rng.choice(["function", "subroutine", "type", "boundprocedure", "interface", "extproc"])
+        cls = {"function": S.FortranFunction, "subroutine": S.FortranSubroutine, "type": S.FortranType,
+               "boundprocedure": S.FortranBoundProcedure, "interface": S.FortranInterface, "extproc": S.FortranSubroutine}[kind]
+        it = object.__new__(cls)
+        it.name = nm
+        it.obj = "proc" if kind in ("function", "subroutine", "extproc") else kind
+        if kind == "function":
+            it.proctype = "Function"
+            if rng.random() < 0.9:
+                it.retvar = var("res")
+        elif kind == "subroutine":
+            it.proctype = "Subroutine"
+        if rng.random() < 0.7:
+            it.permission = rng.choice(perms[1:])
+        return it
+
+    def sig(v):
+        return [v.vartype, v.kind or "", v.strlen or "", (v.proto[0] if v.proto else "")]
+
+    def fields(uid, it):
+        f = [str(uid), it.name, it.obj, getattr(it, "permission", "default")]
+        f += sig(it) if it.obj == "variable" else ["", "", "", ""]
+        f.append(getattr(it, "proctype", ""))
+        rv = getattr(it, "retvar", None)
+        f += ["1", *sig(rv)] if rv is not None else ["0", "", "", "", ""]
+        return f
+
+    for _case in range(n):
+        mode = rng.choice(sort_modes)
+        spelled = mode if rng.random() < 0.7 else mode.title()
+        k = rng.choice([0, 1, 2, 3, 5, 8, 12])
+        items = [var(rng.choice(names)) if rng.random() < 0.5 else other(rng.choice(names)) for _ in range(k)]
+        attr = rng.choice(["variables", "boundprocs", "functions", "types", "finalprocs"])
+        holder = object.__new__(S.FortranModule)
+        holder.settings = SimpleNamespace(sort=spelled)
+        setattr(holder, attr, list(items))
+        holder.sort_components()
+        got = [next(i for i, y in enumerate(items) if y is x) for x in getattr(holder, attr)]
+        hk = f"sort_components: {mode}"
+        hist[hk] = hist.get(hk, 0) + 1
+        reqs.append(["c12.sortcomp", spelled] + [x for i, it in enumerate(items) for x in fields(i, it)])
+        exp.append(["ok"] + [str(i) for i in got])
+        ctx.append((spelled, [fields(i, it) for i, it in enumerate(items)]))
+    got = drv.batch(reqs)
+    for (mode, items), e, g in zip(ctx, exp, got):
+        if e != g:
+            bad += 1
+            if bad <= 3:
+                rep.tie_broken(f"correspondence micro/sortcomp (sort: {mode}): sort_components gives {e[1:]}, the model {g[1:]}",
+                               {"stream": "micro/sortcomp", "mode": mode, "items": items, "impl": e, "model": g})
+    return len(reqs), bad
+
+
 def micro_fs(drv, rng, n, rep, scratch: Path):
     dirs = ["out", "out/proc", "out/src", "out/proc/deep", "other"]
     files = [d + "/" + f for d in dirs for f in ("a.html", "b.html")] + ["top.txt"]
@@ -1614,6 +1912,7 @@ def run(tier: str, seed: int, replay: str | None = None) -> int:
     variant = drv.call("c12.variant")
     out_cfg_excluded = dict(tables.get("outputDirExcludedIn") or [])
     n_micro = 1500 if tier == "quick" else 15000
+    SORTED_LISTS[:] = list(tables.get("sortedComponentLists") or [])
 
     with common.scratch_dir("ford-verif-c12-") as scratch:
         def guarded(name, fn, *a):
@@ -1633,6 +1932,16 @@ def run(tier: str, seed: int, replay: str | None = None) -> int:
         ev_o, bad_o = guarded("micro/nodes", micro_nodes, ford, drv, random.Random(seed * 7919 + 5),
                               400 if tier == "quick" else 4000, rep, hist)
         ev_k, bad_k = guarded("micro/filekind", micro_filekind, T, drv, rng, 250 if tier == "quick" else 2500, rep, hist)
+        # round 6 (own random streams, so that the project generator's stream is the one of the earlier rounds)
+        ev_c, bad_c = guarded("micro/colours", micro_colours, T, drv, random.Random(seed * 6007 + 1),
+                              120 if tier == "quick" else 1200, rep, hist)
+        ev_a, bad_a = guarded("micro/aliases", micro_aliases, T, drv, random.Random(seed * 6007 + 2),
+                              40 if tier == "quick" else 400, rep, hist, scratch)
+        ev_q, bad_q = guarded("micro/sortcomp", micro_sortcomp, ford, drv, random.Random(seed * 6007 + 3),
+                              400 if tier == "quick" else 4000, rep, hist, list(tables.get("sortModes") or []))
+        ev_k, bad_k = ev_k + ev_c + ev_a + ev_q, bad_k + bad_c + bad_a + bad_q
+        rep.coverage.update(hop_colourings_corresponded=ev_c, aliased_directories_corresponded=ev_a,
+                            component_lists_sorted_corresponded=ev_q)
 
         # ---------------- e2e
         nproj = 24 if tier == "quick" else 60
@@ -1647,6 +1956,12 @@ def run(tier: str, seed: int, replay: str | None = None) -> int:
             preproc = pi % 6 == 3
             g = Gen(random.Random(rng.randint(0, 10 ** 9)), clean, nfiles, multi, case_variants=(pi % 8 == 7),
                     includes=(pi % 3 == 0), preproc=preproc)
+            # round 6 (random stream of its own): a call tree with a wide second hop; in projects that are not
+            # "clean", source files reachable under a second path (symbolic links)
+            rng6 = random.Random(seed * 7001 + pi)
+            coloured = pi % 3 != 2 and pi % 2 == 0        # (graph: true and coloured_edges: true, see below)
+            call_tree = g.add_call_tree(rng6) if (rng6.random() < 0.9 and coloured) else 0
+            aliases = g.add_aliases(rng6) if (not clean and rng6.random() < 0.5) else []
             options = {"graph": "true" if pi % 3 != 2 else "false",
                        "search": "true" if (pi % 3 == 1) else "false",
                        "incl_src": "true" if pi % 5 != 4 else "false"}
@@ -1662,6 +1977,8 @@ def run(tier: str, seed: int, replay: str | None = None) -> int:
             if options["graph"] == "true" and pi % 2 == 1 or pi % 6 == 0:
                 options["graph"] = "true"
                 options["graph_dir"] = out_rel + "/graphs"
+            if options["graph"] == "true" and coloured:
+                options["coloured_edges"] = "true"
             if g.inc_dirs:
                 options["include"] = ["./" + d for d in g.inc_dirs]
             if preproc:
@@ -1678,8 +1995,10 @@ def run(tier: str, seed: int, replay: str | None = None) -> int:
             runs = plan_runs(rng, g, tier, options)
             for r in runs:
                 r["cli_output_dir"] = out_rel if out_mode == "nested-cli" else None
+                if aliases:
+                    r["links"] = g.links()
             pg = PageGen(random.Random(seed * 31337 + pi)) if pi % 5 in (0, 1, 3) else None
-            feat = dict(g.features(), out_mode=out_mode, preproc=preproc)
+            feat = dict(g.features(), out_mode=out_mode, preproc=preproc, call_tree_width=call_tree, aliases=aliases)
             if pg is not None:
                 feat["pages"] = pg.features()
             proj = {"index": pi, "gen": g, "options": options, "runs": runs, "files": dict(g.sources(), **media),
@@ -1726,6 +2045,9 @@ def run(tier: str, seed: int, replay: str | None = None) -> int:
         find_reqs, find_ctx = [], []
         kind_reqs, kind_ctx = [], []
         page_reqs, page_ctx = [], []
+        sc_reqs, sc_ctx = [], []
+        hop_reqs, hop_ctx = [], []
+        run_wall: dict = {}
         for proj in projects:
             pi = proj["index"]
             feat = proj["features"]
@@ -1749,6 +2071,14 @@ def run(tier: str, seed: int, replay: str | None = None) -> int:
                     hist[key] = hist.get(key, 0) + 1
             if proj.get("pages"):
                 hist["project: page_dir"] = hist.get("project: page_dir", 0) + 1
+            if feat.get("aliases"):
+                hist["project: source files reachable under two paths (symbolic links)"] = \
+                    hist.get("project: source files reachable under two paths (symbolic links)", 0) + 1
+            if feat.get("call_tree_width"):
+                hist["project: call tree with a second hop of >= 2 calling nodes"] = \
+                    hist.get("project: call tree with a second hop of >= 2 calling nodes", 0) + 1
+            if proj["options"].get("coloured_edges") == "true":
+                hist["option: coloured_edges"] = hist.get("option: coloured_edges", 0) + 1
             if feat.get("rename_callers"):
                 hist["project: call graph hop with equally named procedures"] = \
                     hist.get("project: call graph hop with equally named procedures", 0) + 1
@@ -1763,6 +2093,10 @@ def run(tier: str, seed: int, replay: str | None = None) -> int:
             for r in proj["runs"]:
                 rr = res.get(r["id"])
                 n_runs += 1
+                wk = "alias" if feat.get("aliases") else ("call tree, coloured" if feat.get("call_tree_width") else "other")
+                run_wall.setdefault(wk, [0, 0.0])
+                run_wall[wk][0] += 1
+                run_wall[wk][1] = round(run_wall[wk][1] + ((rr or {}).get("wall") or 0.0), 1)
                 hist["run: " + r["regime"]] = hist.get("run: " + r["regime"], 0) + 1
                 hist[f"run: stale={r['stale']}"] = hist.get(f"run: stale={r['stale']}", 0) + 1
                 hist[f"run: parallel={r['parallel']}"] = hist.get(f"run: parallel={r['parallel']}", 0) + 1
@@ -1816,6 +2150,21 @@ def run(tier: str, seed: int, replay: str | None = None) -> int:
                 number_reqs.append(["c12.number", *fields])
                 number_exp.append(e)
                 number_ctx.append((pi, r["id"]))
+                # --- `sort:` - every entity list sort_components reordered, from its source order
+                for rec in tr.get("sorted_lists", []):
+                    if "error" in rec:
+                        rep.tie_broken(f"e2e/sortcomp (project {pi} run {r['id']}): {rec}")
+                        continue
+                    sc_reqs.append(["c12.sortcomp", rec["mode"]] + [x for i, it in enumerate(rec["items"]) for x in [str(i), *it]])
+                    sc_ctx.append((pi, r, rec))
+                # --- coloured_edges - the colour number every node of a hop was given, from the iteration order
+                for hop in tr.get("hops", []):
+                    if len(set(hop["order"])) != len(hop["order"]):
+                        hist["graph hop: a node twice in the collection (not corresponded)"] = \
+                            hist.get("graph hop: a node twice in the collection (not corresponded)", 0) + 1
+                        continue
+                    hop_reqs.append(["c12.colours"] + [x for i in hop["order"] for x in (i, i)])
+                    hop_ctx.append((pi, r, hop))
                 # --- which files are read (find_all_files on the files that were on disk when the run started)
                 #     and as what each of them is opened (preprocessed? fixed form?)
                 if tr.get("enumerated") is not None and tr.get("exts"):
@@ -2019,6 +2368,29 @@ def run(tier: str, seed: int, replay: str | None = None) -> int:
                                f"the model (listing sorted by name, ordered_subpage first) says {want}",
                                {"stream": "e2e/pages", "run": r, "directory": rel, "listing": rec["listing"],
                                 "ordered_subpage": pg.dirs[rel]["ordered"], "impl": real, "model": g_})
+        got = drv.batch(sc_reqs)
+        for (pi, r, rec), g_ in zip(sc_ctx, got):
+            keys_tie = "sorted list: " + rec["mode"].lower()
+            hist[keys_tie] = hist.get(keys_tie, 0) + 1
+            if g_ != ["ok"] + [str(i) for i in rec["after"]]:
+                bad_tr += 1
+                rep.tie_broken(f"correspondence e2e/sortcomp (project {pi} run {r['id']}, sort: {rec['mode']}): `{rec['list']}` of "
+                               f"{rec['owner']} after sort_components is {rec['after']} (positions in source order); the model says {g_[1:]}",
+                               {"stream": "e2e/sortcomp", "run": r, "record": rec, "model": g_})
+        got = drv.batch(hop_reqs)
+        for (pi, r, hop), g_ in zip(hop_ctx, got):
+            pal = T.palette(len(hop["order"]))
+            try:
+                want = ["ok"] + [x for i, c in hop["calls"] for x in (i, str(pal.index(c)))]
+            except ValueError:
+                want = ["colour that is no colour number of the hop", hop["calls"]]
+            hk = f"graph hop (e2e): {min(len(hop['order']), 4)}{'+' if len(hop['order']) >= 4 else ''} nodes"
+            hist[hk] = hist.get(hk, 0) + 1
+            if g_ != want:
+                bad_tr += 1
+                rep.tie_broken(f"correspondence e2e/colours (project {pi} run {r['id']}, hash seed {r['hashseed']}): hop {hop['nesting']} of a "
+                               f"{hop['graph']} iterated as {hop['order'][:6]}: colour numbers {want[1:13]}; the model says {g_[1:13]}",
+                               {"stream": "e2e/colours", "run": r, "hop": hop, "model": g_})
         got = drv.batch(site_reqs)
         n_site = 0
         for (proj, r, rr, ent_of), g in zip(site_ctx, got):
@@ -2102,7 +2474,8 @@ def run(tier: str, seed: int, replay: str | None = None) -> int:
              "hash seed, parallel, prior state of the output directory)",
         samples=samples,
         traces_validated_against_impl=ev_s + ev_n + ev_f + ev_k + ev_o + len(number_reqs) + n_site + len(inc_reqs) + len(inh_reqs)
-        + len(find_reqs) + len(kind_reqs) + len(page_reqs),
+        + len(find_reqs) + len(kind_reqs) + len(page_reqs) + len(sc_reqs) + len(hop_reqs),
+        run_wall_s_by_project_kind=run_wall, sorted_entity_lists_corresponded_e2e=len(sc_reqs), graph_hops_coloured_corresponded_e2e=len(hop_reqs),
         file_sets_corresponded=len(find_reqs), files_opened_corresponded=len(kind_reqs),
         include_lines_corresponded=len(inc_reqs), derived_type_lists_corresponded=len(inh_reqs),
         page_directories_corresponded=len(page_reqs),
@@ -2119,7 +2492,8 @@ def run(tier: str, seed: int, replay: str | None = None) -> int:
                                                       "inheritedIterOrdered", "inheritedIterables", "hashIterSites",
                                                       "orderDefs", "sortSites", "pageListNatural", "pageListing",
                                                       "extensionBySuffix", "outputDirExcludedIn", "symbolReplacements",
-                                                      "writeoutStepsPlainFile")},
+                                                      "writeoutStepsPlainFile", "edgeColourBySortedIndex",
+                                                      "sourceAliasesFirstCome", "sortModes", "sortedComponentLists")},
         input_histogram=dict(sorted(hist.items())),
     )
     rep.assumptions += [
